@@ -1,17 +1,56 @@
-(* C05 for MTVRP -- the mask never hides a feasible solution: true of the repaired mask, true of the shipped mask only
-   for solutions with STRICT time slack; the boundary instance is exhibited. Statements only. *)
+(* C05 for MTVRP -- the mask never hides a feasible solution.  Full-strength statement for the code as it is ([<=] time
+   comparisons since /repo 9b8ead8); the strict-slack statement and the boundary witnesses of the former strict mask are
+   kept as history (recorded as fixed in known_findings.json). Statements only. *)
 From Coq Require Import ZArith List Bool.
 From RL4CO Require Import Base.Num Base.EnvSig Spec.Routes Spec.VRPFeatures Env.MTVRP Env.MTVRPProofs.
 Import ListNotations.
 Open Scope Z_scope.
 
-(* SHIPPED CODE (R = false).  EVERY solution -- non-empty routes partitioning the customers 1..n, each with delivery
-   load <= capacity and pickup load <= capacity (equality allowed), linehauls before backhauls, route length (way
-   back included unless open) <= limit (equality allowed) -- whose service starts are all STRICTLY before the end of
-   their windows and whose depot returns (closed routes) are STRICTLY before the depot's deadline, is reachable
-   through the mask in its canonical encoding (one depot visit after each route), the row is finished at its end,
-   and decoding the encoding gives the same routes back.  Metric hypothesis (true of distances computed from
-   coordinates): going straight home is not longer / slower than going home via another node. *)
+(* THE THEOREM.  EVERY solution of the problem definition -- non-empty routes partitioning the customers 1..n, each with
+   delivery load <= capacity and pickup load <= capacity, linehauls before backhauls, route length (way back included
+   unless open) <= limit, every service started by the end of its window and (closed routes) the vehicle back by the
+   depot's deadline; zero slack, EQUALITIES INCLUDED -- is reachable through the mask (R = true: the code as it is) in its
+   canonical encoding (one depot visit after each route), the row is finished at its end, and decoding the encoding
+   gives the same routes back.  Metric hypothesis (true of distances computed from coordinates): going straight home is
+   not longer / slower than going home via another node. *)
+Theorem C05_mtvrp_mask_complete :
+  forall (i : mtvrp_inst) (rs : list (list nat)),
+    mtvrp_wfb i = true -> mtvrp_metricb i = true ->
+    rs <> [] -> Forall (fun r => r <> []) rs -> NoDup (concat rs) ->
+    (forall x, In x (concat rs) <-> (1 <= x <= n_of i)%nat) ->
+    Forall (fun r => route_ok (dlf i) (dbf i) (cap i) (dfun i) (tfun i) (lim i) (opn i) (lo i) (hi i) (sv i) 0 r = true) rs ->
+    adm (E:=MTVRP exact true) i (enc_routes rs) = true /\
+    done (MTVRP exact true) i (run (E:=MTVRP exact true) i (enc_routes rs)) = true /\
+    routes (enc_routes rs) = rs ++ [[]].
+Proof. exact mtvrp_mask_complete_repaired. Qed.
+Print Assumptions C05_mtvrp_mask_complete.
+
+(* the canonical encoding keeps the objective: the optimum over solutions is reachable *)
+Theorem C05_mtvrp_encoding_keeps_objective :
+  forall (i : mtvrp_inst) (rs : list (list nat)),
+    dfun i 0%nat 0%nat = 0 -> Forall (fun r => Forall (fun x => x <> 0%nat) r) rs ->
+    mtvrp_objective i (enc_routes rs) = - sumZ (map (route_cost (dfun i) (opn i)) rs).
+Proof. exact mtvrp_encode_objective. Qed.
+Print Assumptions C05_mtvrp_encoding_keeps_objective.
+
+(* non-vacuity with every constraint kind met with equality somewhere: capacity filled exactly (32 + 32 = 64), route
+   length exactly at the limit (16 + 16 = 32), and -- second instance -- arrival exactly when the window closes *)
+Example C05_mtvrp_nonvacuous :
+  let i := {| dl := [0; 32; 32; 0]; db := [0; 0; 0; 40]; cap := 64; lim := 32; opn := false;
+              tlo := [0; 0; 10; 0]; thi := [200; 50; 60; 90]; svc := [0; 2; 2; 2];
+              dist := [[0; 5; 9; 16]; [5; 0; 4; 11]; [9; 4; 0; 7]; [16; 11; 7; 0]];
+              tt := [[0; 5; 9; 16]; [5; 0; 4; 11]; [9; 4; 0; 7]; [16; 11; 7; 0]] |} in
+  mtvrp_wfb i = true /\ mtvrp_metricb i = true /\
+  adm (E:=MTVRP exact true) i (enc_routes [[1; 2]; [3]]%nat) = true /\
+  load (dlf i) [1; 2]%nat = cap i /\ route_cost (dfun i) (opn i) [3]%nat = lim i /\
+  adm (E:=MTVRP exact true) tw_eq_inst (enc_routes [[1]]%nat) = true /\ tfun tw_eq_inst 0%nat 1%nat = hi tw_eq_inst 1%nat.
+Proof. vm_compute. repeat split. Qed.
+
+(* ------------------------------------------------------------------------------------------------------------------
+   HISTORY: the former strict mask (R = false: [<] in can_reach_customer and can_reach_depot), repaired by /repo 9b8ead8
+   and recorded as fixed in known_findings.json.  Kept so that the old behaviour is named precisely if it returns. *)
+
+(* the strict mask was complete only for solutions with STRICT time slack *)
 Theorem C05_mtvrp_mask_complete_strict :
   forall (i : mtvrp_inst) (rs : list (list nat)),
     mtvrp_wfb i = true -> mtvrp_metricb i = true ->
@@ -26,23 +65,9 @@ Theorem C05_mtvrp_mask_complete_strict :
 Proof. exact mtvrp_mask_complete_strict. Qed.
 Print Assumptions C05_mtvrp_mask_complete_strict.
 
-(* REPAIRED MASK (R = true: [<=] instead of [<] in can_reach_customer and can_reach_depot): the full-strength
-   statement -- every solution of the problem definition (zero slack, equalities included) is reachable *)
-Theorem C05_mtvrp_mask_complete_repaired :
-  forall (i : mtvrp_inst) (rs : list (list nat)),
-    mtvrp_wfb i = true -> mtvrp_metricb i = true ->
-    rs <> [] -> Forall (fun r => r <> []) rs -> NoDup (concat rs) ->
-    (forall x, In x (concat rs) <-> (1 <= x <= n_of i)%nat) ->
-    Forall (fun r => route_ok (dlf i) (dbf i) (cap i) (dfun i) (tfun i) (lim i) (opn i) (lo i) (hi i) (sv i) 0 r = true) rs ->
-    adm (E:=MTVRP exact true) i (enc_routes rs) = true /\
-    done (MTVRP exact true) i (run (E:=MTVRP exact true) i (enc_routes rs)) = true /\
-    routes (enc_routes rs) = rs ++ [[]].
-Proof. exact mtvrp_mask_complete_repaired. Qed.
-Print Assumptions C05_mtvrp_mask_complete_repaired.
-
-(* the full-strength statement is FALSE of the shipped mask: one customer whose travel time from the depot equals the
-   end of its window (80 = 0.625 * 128).  The visit is feasible by the problem definition, the shipped checker accepts
-   it, the repaired mask admits it; the shipped mask hides the customer at reset ... *)
+(* ... and not for more: one customer whose travel time from the depot equals the end of its window (80 = 0.625 * 128).
+   The visit is feasible by the problem definition, the checker accepts it, the mask as it is admits it; the strict mask
+   hid the customer at reset ... *)
 Theorem C05_mtvrp_tw_equality_hidden_refuted :
   exists (i : mtvrp_inst) (rs : list (list nat)),
     mtvrp_wfb i = true /\ mtvrp_metricb i = true /\ mtvrp_solvableb true i = true /\
@@ -55,7 +80,7 @@ Theorem C05_mtvrp_tw_equality_hidden_refuted :
 Proof. exact mtvrp_tw_equality_hidden_refuted. Qed.
 Print Assumptions C05_mtvrp_tw_equality_hidden_refuted.
 
-(* ... and for ever: no mask-confined episode of the shipped code on that instance finishes *)
+(* ... for ever: no mask-confined episode of the strict mask on that instance finished *)
 Theorem C05_mtvrp_tw_equality_never_served :
   forall acts, adm (E:=MTVRP exact false) tw_eq_inst acts = true ->
                done (MTVRP exact false) tw_eq_inst (run (E:=MTVRP exact false) tw_eq_inst acts) = false.
@@ -70,24 +95,3 @@ Theorem C05_mtvrp_depot_deadline_equality_hidden_refuted :
     mask (MTVRP exact false) i (reset (MTVRP exact false) i) = [true; false].
 Proof. exact mtvrp_depot_deadline_equality_hidden_refuted. Qed.
 Print Assumptions C05_mtvrp_depot_deadline_equality_hidden_refuted.
-
-(* the canonical encoding keeps the objective: the optimum over solutions is reachable wherever the solutions are *)
-Theorem C05_mtvrp_encoding_keeps_objective :
-  forall (i : mtvrp_inst) (rs : list (list nat)),
-    dfun i 0%nat 0%nat = 0 -> Forall (fun r => Forall (fun x => x <> 0%nat) r) rs ->
-    mtvrp_objective i (enc_routes rs) = - sumZ (map (route_cost (dfun i) (opn i)) rs).
-Proof. exact mtvrp_encode_objective. Qed.
-Print Assumptions C05_mtvrp_encoding_keeps_objective.
-
-(* non-vacuity: capacity filled exactly (32 + 32 = 64), route length exactly at the limit (5 + 4 + 9 = 18),
-   strict time slack *)
-Example C05_mtvrp_nonvacuous :
-  let i := {| dl := [0; 32; 32; 0]; db := [0; 0; 0; 40]; cap := 64; lim := 32; opn := false;
-              tlo := [0; 0; 10; 0]; thi := [200; 50; 60; 90]; svc := [0; 2; 2; 2];
-              dist := [[0; 5; 9; 16]; [5; 0; 4; 11]; [9; 4; 0; 7]; [16; 11; 7; 0]];
-              tt := [[0; 5; 9; 16]; [5; 0; 4; 11]; [9; 4; 0; 7]; [16; 11; 7; 0]] |} in
-  mtvrp_wfb i = true /\ mtvrp_metricb i = true /\
-  adm (E:=MTVRP exact false) i (enc_routes [[1; 2]; [3]]%nat) = true /\
-  load (dlf i) [1; 2]%nat = cap i /\ route_cost (dfun i) (opn i) [3]%nat = lim i /\
-  tw_strict (tfun i) (opn i) (lo i) (hi i) (sv i) 0%nat 0 [1; 2]%nat = true.
-Proof. vm_compute. repeat split. Qed.
